@@ -218,9 +218,6 @@ Section Group.
   Variable G : pt.
   Variable n : Z.
   Variable coords : pt -> option (Z * Z).
-  Variable lift_x : Z -> option (pt * pt).
-  Variable x_canon : Z -> Prop.
-  Variable gen_k : Z -> Z -> Z -> outcome Z.
 
   Hypothesis GL : group_laws pt add neg O smul n coords.
   Hypothesis Hn : prime n.
@@ -228,13 +225,11 @@ Section Group.
   Local Notation verify' := (verify pt add smul G n coords).
   Local Notation sign_step' := (sign_step pt smul G n coords).
   Local Notation sign_loop' := (sign_loop pt smul G n coords).
-  Local Notation sign_with_recid' := (sign_with_recid pt smul G n coords gen_k).
-  Local Notation recover' := (recover pt add smul G n lift_x).
   Local Notation valid' := (ecdsa_valid pt add smul G n coords).
   Local Notation "a == b" := (eqm n a b) (at level 70).
 
   Let n_ge_2 : 2 <= n.
-  Proof. apply prime_ge_2. exact Hn. Qed.
+  Proof using Hn. apply prime_ge_2. exact Hn. Qed.
 
   (* ---- derived group facts ---- *)
   Lemma add_O_r P : add P O = P.
@@ -496,6 +491,10 @@ Section Group.
     - intros si Hsi. apply (signer_point d z k r s si He Hsi).
   Qed.
 
+  Section WithGenK.
+  Variable gen_k : Z -> Z -> Z -> outcome Z.
+  Local Notation sign_with_recid' := (sign_with_recid pt smul G n coords gen_k).
+
   Lemma sign_ret fuel d z r s c : sign_with_recid' fuel d z = Ret (r, s, c) ->
     z <> 0 /\ exists k0 k, gen_k n d z = Ret k0 /\ k0 <= k /\ sign_step' d z k = Ret (Some (r, s, c)) /\
                          forall i, k0 <= i < k -> sign_step' d z i = Ret None.
@@ -526,6 +525,35 @@ Section Group.
     - discriminate.
     - intros [c H]; discriminate.
   Qed.
+
+  (* when the nonce function's first value k gives non-zero r and s, the signature is made with that k *)
+  Lemma first_nonce_signature d z k x y : z <> 0 -> gen_k n d z = Ret k ->
+    coords (smul k G) = Some (x, y) -> x mod n <> 0 -> (z + (x mod n) * d) mod n <> 0 ->
+    forall fuel, exists s c, sign_with_recid' (S fuel) d z = Ret (x mod n, s, c) /\
+                             1 <= s < n /\ (s * k) mod n = (z + (x mod n) * d) mod n.
+  Proof.
+    intros Hz Hk Hc Hr Hs fuel.
+    assert (Hkn : k mod n <> 0).
+    { intros Hk0. assert (smul k G = O) as HO.
+      { rewrite (smul_eqm k 0 G), smul_0; [reflexivity|]. apply eqm_zero. exact Hk0. }
+      rewrite HO, (gl_coords_O _ _ _ _ _ _ _ GL) in Hc. discriminate. }
+    destruct (inverse_ok k Hkn) as [ik [Hi Hik]].
+    set (r := x mod n) in *.
+    set (s := (ik * (z + (d * r) mod n)) mod n).
+    assert (Hsk : s * k == z + r * d).
+    { subst s. rewrite eqm_mod, eqm_mod.
+      replace (ik * (z + d * r) * k) with ((k * ik) * (z + r * d)) by ring. rewrite Hik. apply eqm_refl'. ring. }
+    assert (Hs0 : s <> 0).
+    { intros E. apply Hs. apply (proj1 (eqm_zero n _)). rewrite <- Hsk, E. apply eqm_refl'. ring. }
+    assert (Hsr : 0 <= s < n) by (apply Z.mod_pos_bound; lia).
+    exists s, (if n <? x then Z.land y 1 + 2 else Z.land y 1).
+    split; [|split; [lia|apply eqm_to_mod; exact Hsk]].
+    unfold sign_with_recid. destruct (z =? 0) eqn:Ez; [lia|]. rewrite Hk. cbn [bind sign_loop].
+    unfold sign_step. rewrite Hc, Hi. cbn [bind]. fold r. fold s.
+    destruct (negb (r =? 0) && negb (s =? 0)) eqn:Eb; [|lia]. cbn [bind]. reflexivity.
+  Qed.
+
+  End WithGenK.
 
   (* ---- totality of the k += 1 loop ---- *)
   Lemma sign_step_raise d z k e : sign_step' d z k = Raise e -> e = E_TYPE /\ coords (smul k G) = None.
@@ -588,23 +616,6 @@ Section Group.
     | Some yp => if Z.odd yp then [P1] else [P0]
     end.
 
-  Lemma recover_in_range z r s yp P0 P1 : 1 <= r < n -> 1 <= s < n -> lift_x r = Some (P0, P1) ->
-    exists ir, inverse n r = Ret ir /\ r * ir == 1 /\
-               recover' z r s yp = Ret (map (candidate z r s ir) (select yp P0 P1)).
-  Proof.
-    intros Hr Hs Hl. destruct (inverse_ok r (in_range_nz r Hr)) as [ir [Hi Hir]].
-    exists ir. split; [exact Hi|]. split; [exact Hir|].
-    unfold recover. rewrite (proj2 (out_of_range_false r s)) by tauto. rewrite Hl, Hi. cbn [bind].
-    f_equal. unfold select. destruct yp as [yp|]; [|reflexivity].
-    rewrite land1. destruct (Z.odd yp); reflexivity.
-  Qed.
-
-  Lemma recover_empty z r s yp : ~ (1 <= r < n /\ 1 <= s < n) -> recover' z r s yp = Ret [].
-  Proof.
-    intros H. unfold recover. destruct (out_of_range n r s) eqn:E; [reflexivity|].
-    apply out_of_range_false in E. contradiction.
-  Qed.
-
   (* verify's sum point for a candidate built from R is R *)
   Lemma candidate_point z r s ir si R : r * ir == 1 -> s * si == 1 ->
     sum_point (candidate z r s ir R) z r si = R.
@@ -633,6 +644,28 @@ Section Group.
     rewrite (smul_eqm _ 0 G), smul_0; [apply add_O_r|].
     replace (s * ir * (z * si) + - (ir * z)) with ((s * si) * (ir * z) - ir * z) by ring.
     rewrite Hsi. apply eqm_refl'. ring.
+  Qed.
+
+  Section Recover.
+  Variable lift_x : Z -> option (pt * pt).
+  Variable x_canon : Z -> Prop.
+  Local Notation recover' := (recover pt add smul G n lift_x).
+
+  Lemma recover_in_range z r s yp P0 P1 : 1 <= r < n -> 1 <= s < n -> lift_x r = Some (P0, P1) ->
+    exists ir, inverse n r = Ret ir /\ r * ir == 1 /\
+               recover' z r s yp = Ret (map (candidate z r s ir) (select yp P0 P1)).
+  Proof.
+    intros Hr Hs Hl. destruct (inverse_ok r (in_range_nz r Hr)) as [ir [Hi Hir]].
+    exists ir. split; [exact Hi|]. split; [exact Hir|].
+    unfold recover. rewrite (proj2 (out_of_range_false r s)) by tauto. rewrite Hl, Hi. cbn [bind].
+    f_equal. unfold select. destruct yp as [yp|]; [|reflexivity].
+    rewrite land1. destruct (Z.odd yp); reflexivity.
+  Qed.
+
+  Lemma recover_empty z r s yp : ~ (1 <= r < n /\ 1 <= s < n) -> recover' z r s yp = Ret [].
+  Proof.
+    intros H. unfold recover. destruct (out_of_range n r s) eqn:E; [reflexivity|].
+    apply out_of_range_false in E. contradiction.
   Qed.
 
   Hypothesis LL : lift_laws pt coords lift_x x_canon.
@@ -681,10 +714,13 @@ Section Group.
   Qed.
 
   (* the signer's key is recovered when the nonce point's abscissa is below n, i.e. recid < 2 *)
+  Variable gen_k : Z -> Z -> Z -> outcome Z.
+  Local Notation sign_with_recid' := (sign_with_recid pt smul G n coords gen_k).
+
   Theorem recover_signer fuel d z r s c : sign_with_recid' fuel d z = Ret (r, s, c) -> c < 2 ->
     recover' z r s (Some c) = Ret [smul d G] /\ exists l, recover' z r s None = Ret l /\ In (smul d G) l.
   Proof.
-    intros H Hc. apply sign_ret in H. destruct H as [Hz [k0 [k [_ [_ [Hs _]]]]]].
+    intros H Hc. apply (sign_ret gen_k) in H. destruct H as [Hz [k0 [k [_ [_ [Hs _]]]]]].
     apply sign_step_sig in Hs. destruct Hs as [Hsig [_ [x [y [Hxy Hcc]]]]].
     destruct (sig_with_nonce_verifies d z k r s Hz Hsig) as [Hr [Hs' [_ Hpt]]].
     destruct (inverse_ok s (in_range_nz s Hs')) as [si [_ Hsi]].
@@ -700,4 +736,5 @@ Section Group.
     split; [|exact H1]. apply H2.
     destruct (n <? x); [lia|]. subst c. destruct (Z.odd y); reflexivity.
   Qed.
+  End Recover.
 End Group.
